@@ -197,7 +197,8 @@ def rand_vectors(prop, cfg, n, seed):
                 x = {"s": s, "e": e, "l": "x"}
             else:
                 x = {"t": T.interesting_times(rng, pre, HI + 500, 1)[0], "l": "x"}
-            args = {"x": x, "cmode": rng.choice(["error", "replace", "merge"]), "rmode": rng.choice(["silence", "warning"])}
+            args = {"x": x, "cmode": rng.choice(["error", "replace", "merge"]), "rmode": rng.choice(["silence", "warning"]),
+                    "padlabel": rng.random() < 0.3}
         elif op == "deleteEntry":
             if pre["ents"] and rng.random() < 0.8:
                 x = dict(rng.choice(pre["ents"]))
@@ -337,7 +338,8 @@ def rand_vectors_small(cfg, rng, pre, HI):
             x = {"s": s, "e": e, "l": "x"}
         else:
             x = {"t": tm()[0], "l": "x"}
-        args = {"x": x, "cmode": rng.choice(["error", "replace", "merge"]), "rmode": rng.choice(["silence", "warning"])}
+        args = {"x": x, "cmode": rng.choice(["error", "replace", "merge"]), "rmode": rng.choice(["silence", "warning"]),
+                "padlabel": rng.random() < 0.3}
     elif op == "deleteEntry":
         if pre["ents"] and rng.random() < 0.8:
             x = dict(rng.choice(pre["ents"]))
@@ -425,13 +427,27 @@ def check(prop, tier):
             rel2 = lambda c: any(c.startswith(p_) for p_ in prefixes) or c in ("times_off_grid", "UNKNOWN_OP")
             checks_tg.run_part(prop, tier, res, findings, work, mops, eops, rel2,
                                plans=[("dy", "ascii"), ("dec", "uni")])
+        # the repository's own tests and examples as a trace source (order-only clauses under rank abstraction)
+        if prop in ("C05", "C13"):
+            from . import recorded
+            rev, info = recorded.recorded_events(work)
+            for i, e in enumerate(rev):
+                e["id"] = i
+            rverd, rn, rcmd = common.validate_traces("Trace_Recorded", rev, work)
+            res.cmds.append(rcmd)
+            res.traces += rn
+            res.evaluations += len(rev)
+            res.judge(rev, rverd, findings, lambda c: c.startswith(prop + "_"))
+            for e in rev:
+                res.distinct.add(("recorded", e["recv"], e["op"], e["st"], e["mutator"]))
+            res.notes["recorded_suite"] = info
         res.rule = ("every transition of the bounded TLC model (N=%d, K<=%d, ops=%s) replayed under embeddings %s, "
                     "plus %d random millisecond-grid vectors and %d live histories; an event is non-trivial if the "
                     "receiver has entries and the call changed something or raised; distinct = distinct "
                     "(op, kind, modes, status, sizes, changed) classes" %
                     (consts["N"], consts["K"], ",".join(cfg["ops"]), plans, len(rv), nh))
-        res.notes = dict(constants=consts, enumerated_vectors=nv, impl_drift=ndrift,
-                         embeddings=[p[0] for p in plans])
+        res.notes.update(dict(constants=consts, enumerated_vectors=nv, impl_drift=ndrift,
+                              embeddings=[p[0] for p in plans]))
         res.assumptions = [
             "TLC explores TierImpl (a hand transcription of the Python) exhaustively only within N, K; the code is bound "
             "to TierProp by the replayed and random executions counted here, not proved",
